@@ -308,6 +308,32 @@ def check_huge(IndxIO, tmp, st, which):
         os.remove(path)
 
 
+def check_many_entries(IndxIO, tmp, st, which):
+    """An index with more entries than a 16-bit count holds (65537 one-row entries; 70000 two-axis entries): the entry
+    count field, the key table and the lengths table are read back whole."""
+    path = os.path.join(tmp, "many.indx")
+    for n, arity in ((65537, 1), (70000, 2)):
+        ent = {((k,) if arity == 1 else (k % 300 + 1, k // 300)): np.array([k], dtype=U32) for k in range(1, n + 1)}
+        ex = {"entries": "%d entries %s, each holding its own number as the only row id" % (n, "{(k,): [k]}" if arity == 1 else "{(k % 300 + 1, k // 300): [k]}"), "common": 0}
+        try:
+            with open(path, "wb") as f:
+                IndxIO.save(f, ent, 0, U32)
+            with open(path, "rb") as f:
+                got, gcommon, gdtype = IndxIO.load(f)
+            ok = gcommon == 0 and len(got) == len(ent) and list(got.keys()) == list(ent.keys()) and all(got[k].tolist() == v.tolist() for k, v in list(ent.items())[:: 997])
+            MON.check("indxio.roundtrip/many-entries-all-read-back", ok, lambda: "saved %d entries, loaded %d (common %r)" % (len(ent), len(got), gcommon), ex, {"entries": n})
+            if which in (None, "C11"):
+                with open(path, "rb") as f:
+                    data = f.read()
+                want = spec_indx.encode([(k, v.tolist()) for k, v in ent.items()], 0)
+                MON.check("indxio.IndxIO.save/bytes-equal-independent-encoder", data == want, lambda: "file of %d bytes differs from the independent encoding (%d bytes)" % (len(data), len(want)), ex, {"entries": n})
+        except Exception as e:  # noqa
+            MON.check("indxio.roundtrip/many-entries-all-read-back", "raised %s: %s" % (type(e).__name__, e), None, ex, {"entries": n})
+        st["large"] += 1
+    if os.path.exists(path):
+        os.remove(path)
+
+
 def check_indexes(IndxIO, iindex, tier, shard, nshards, tmp, st):
     path = os.path.join(tmp, "i.indx")
     V = (0, 1, 2, 300)
@@ -362,6 +388,8 @@ def work(args):
             check_large_totals(IndxIO, tmp, st)
         if shard == 1 % nshards and which in (None, "C10", "C12"):
             check_huge(IndxIO, tmp, st, which)
+        if shard == 4 % nshards and which in (None, "C10", "C11"):
+            check_many_entries(IndxIO, tmp, st, which)
         if which in (None, "C10"):
             check_indexes(IndxIO, iindex, tier, shard, nshards, tmp, st)
     finally:
